@@ -343,7 +343,7 @@ def segArc (startRadius : R) (check2d : P2 R) (angTop angBot len : R) (s : SegSt
     { s with newDistance := arcDistance check2d center radius diff,
              newAlong := (radius * cpa - radius * angTop) * (if diff < 0 then 1 else -1),
              newDepthRef := startRadius - (sin (cpa + angTop) * bspc.x + cos (cpa + angTop) * bspc.y + center.y) }
-  else s
+  else { s with newDistance := Scalar.inf, newAlong := Scalar.inf, newDepthRef := Scalar.inf }
 
 /-- the geometry of one segment: straight or circular piece -/
 def segGeom (startRadius : R) (check2d : P2 R) (angTop angBot len : R) (s : SegState R) : SegState R :=
@@ -1045,8 +1045,8 @@ theorem segArc_newDistance (startRadius : F) (c : P2 F) (θ angBot len : F) (s :
     (@arcAccept F (fieldScalar T) diff (@arcCpa F (fieldScalar T) c center r diff) θ angBot →
       (@segArc F (fieldScalar T) startRadius c θ angBot len s).newDistance = @arcDistance F (fieldScalar T) c center r diff) ∧
     (¬ @arcAccept F (fieldScalar T) diff (@arcCpa F (fieldScalar T) c center r diff) θ angBot →
-      (@segArc F (fieldScalar T) startRadius c θ angBot len s).newDistance = s.newDistance ∧
-      (@segArc F (fieldScalar T) startRadius c θ angBot len s).newAlong = s.newAlong) := by
+      (@segArc F (fieldScalar T) startRadius c θ angBot len s).newDistance = T.inf ∧
+      (@segArc F (fieldScalar T) startRadius c θ angBot len s).newAlong = T.inf) := by
   intro diff r center
   constructor
   · intro h
